@@ -36,6 +36,9 @@ let lex_of tag = match Hashtbl.find_opt lexed tag with
 
 let quote_rule words (ts : tok list) id =
   let style = cfgval words "quote_style" "AutoPreferDouble" in
+  (* the judge of the theorem C11_L0_every_string_obeys_quote_style (Fmt0.quote_ok, extracted), next to the rule spelled out below *)
+  let st = match style with "ForceDouble" -> QuoteMore.ForceDouble | "ForceSingle" -> QuoteMore.ForceSingle | "AutoPreferSingle" -> QuoteMore.AutoSingle | _ -> QuoteMore.AutoDouble in
+  if not (L.for_all (Fmt0.quote_ok st) ts) then report "quote-judge-of-the-theorem" id;
   L.iter (function
     | TStr (q, _, body) when q <> QBrackets ->
       let form = if q = QSingle then Quote.QS else Quote.QD in
